@@ -224,3 +224,50 @@ func VerifC16Batch() {
 	verifrt.Assert("c16.batch.encode-after-abort-same-bytes", verifrt.EqBytes(ft.TMemoryBuffer.Bytes(), enc))
 	verifrt.Reach("c16.batch.end")
 }
+
+// VerifC16StringLengths: encoded length of a metric whose name (resp. tag value) has a
+// symbolic length 0..300: the encoder's output (abstract buffer) and the calculator must both
+// equal the reference size = framing of the empty string + length prefix growth + the bytes.
+func VerifC16StringLengths() {
+	verifrt.AbstractBuffers()
+	binary := verifrt.Choose("binary", 2) == 1
+	f := vFactory(binary)
+	where := verifrt.Choose("where", 2)
+	mk := func(s string) Metric {
+		m := Metric{Name: "n", Timestamp: 1}
+		m.Value.MetricType = MetricType_COUNTER
+		if where == 0 {
+			m.Name = s
+		} else {
+			m.Tags = []MetricTag{{Name: "k", Value: s}}
+		}
+		return m
+	}
+	size := func(m *Metric) (int, int32) {
+		buf := thrift.NewTMemoryBuffer()
+		err := m.Write(f.GetProtocol(buf))
+		verifrt.Assert("c16.len.encode-no-error", err == nil)
+		calc := &customtransport.TCalcTransport{}
+		err = m.Write(f.GetProtocol(calc))
+		verifrt.Assert("c16.len.calc-no-error", err == nil)
+		return buf.Len(), calc.GetCount()
+	}
+	empty := mk("")
+	base, _ := size(&empty)
+	s := verifrt.OpaqueString("s", 0, 300)
+	m := mk(s)
+	got, counted := size(&m)
+	want := base + len(s)
+	if !binary && len(s) >= 128 {
+		want++ // the varint length prefix takes a second byte
+	}
+	verifrt.Assert("c16.len.encoded-length-is-prefix-plus-every-byte", got == want)
+	verifrt.Assert("c16.len.calculator-agrees", int(counted) == want)
+	verifrt.Reach("c16.len.end")
+}
+
+// VerifC16CompactBoundaryStrings: round trip at the lengths around the protocol's internal
+// 64-byte scratch buffer.
+func VerifC16CompactBoundaryStrings() {
+	c16Metric(false, 2+verifrt.Choose("aspect", 2), 63+verifrt.Choose("strlen", 3))
+}
